@@ -9,6 +9,8 @@ import itertools
 
 import numpy as np
 
+from vf.tx import amax as _amax
+
 from vf.core import Workload
 from vf import taps, gen, gmrfmon
 
@@ -90,13 +92,13 @@ class PCAIncrement(taps.Monitor):
         scale = max(1.0, float(np.abs(X).max()))
         mech = ("centred" if centre else "uncentred") + (":n<=d" if X.shape[0] <= X.shape[1] else ":n>d")
         e = float(np.abs(m._mean - mean).max())
-        if e > 1e-9 * scale:
+        if not (e <= 1e-9 * scale):
             zero_col = bool(centre and (np.abs(np.vstack(rec[1][:-1]).mean(0)) == 0).any())
             ctx.fail("incremental_mean_differs_from_batch_mean", cls=cls, mech=mech + (":mean_has_exact_zero" if zero_col else ""), err=e)
         g = m._components @ m._components.T
         eo = float(np.abs(g - np.eye(len(g))).max())
         ctx.err("pca_incremental_orthonormality", eo)
-        if eo > 1e-6:
+        if not (eo <= 1e-6):
             ctx.fail("incremental_components_are_not_orthonormal", cls=cls, mech=mech, err=eo)
         if m.n_components != len(lam):
             # components below the numerical threshold may legitimately differ at the edge of the spectrum
@@ -109,18 +111,18 @@ class PCAIncrement(taps.Monitor):
                 ctx.fail("incremental_number_of_components_differs_from_batch", cls=cls, mech=mech + ":leading_part", got=int(m.n_components), expected=int(len(lam)))
             elif k:
                 e = float(np.abs(m._eigenvalues[:k] - lam[:k]).max() / lam[0])
-                if e > 1e-7:
+                if not (e <= 1e-7):
                     ctx.fail("incremental_eigenvalues_differ_from_batch", cls=cls, mech=mech + ":leading_part", err=e)
             return
         e = float(np.abs(m._eigenvalues - lam).max() / lam[0])
         ctx.err("pca_eigenvalues_vs_batch", e)
-        if e > 1e-7:
+        if not (e <= 1e-7):
             ctx.fail("incremental_eigenvalues_differ_from_batch", cls=cls, mech=mech, err=e)
         P1 = m._components.T @ m._components
         P2 = V.T @ V
         e = float(np.abs(P1 - P2).max())
         ctx.err("pca_projector_vs_batch", e)
-        if e > 1e-6:
+        if not (e <= 1e-6):
             ctx.fail("incremental_principal_subspace_differs_from_batch", cls=cls, mech=mech, err=e)
 
 
@@ -213,9 +215,9 @@ def w_pca_random(ctx, rng, i):
         for a, b in zip(cuts2[1:-1], cuts2[2:]):
             m2.increment(X[a:b].copy())
         ctx.tap("split_vs_split", "calls"); ctx.tap("split_vs_split", "checked")
-        if m1.n_samples != m2.n_samples or np.abs(m1._mean - m2._mean).max() > 1e-9 * max(1.0, np.abs(X).max()):
+        if m1.n_samples != m2.n_samples or _amax(m1._mean - m2._mean) > 1e-9 * max(1.0, np.abs(X).max()):
             ctx.fail("two_splittings_of_the_same_data_disagree", cls="PCAVectorModel", mech="mean_or_count")
-        elif m1.n_components == m2.n_components and np.abs(m1._eigenvalues - m2._eigenvalues).max() > 1e-7 * m1._eigenvalues[0]:
+        elif m1.n_components == m2.n_components and _amax(m1._eigenvalues - m2._eigenvalues) > 1e-7 * m1._eigenvalues[0]:
             ctx.fail("two_splittings_of_the_same_data_disagree", cls="PCAVectorModel", mech="eigenvalues")
     ctx.count_case(("pca_random", len(comp), 0 if n <= d else 1, centre, kind), nontrivial=True,
                    sample={"model": "PCA", "composition": comp, "centred": centre, "d": d, "data": kind} if i < 3 else None)
@@ -247,12 +249,12 @@ def w_pca_object(ctx, rng, i):
     b = PCAModel(shapes)
     ctx.tap("object_backed_vs_batch", "calls"); ctx.tap("object_backed_vs_batch", "checked")
     scale = max(1.0, np.abs(X).max())
-    if m.n_samples != b.n_samples or np.abs(m._mean - b._mean).max() > 1e-9 * scale:
+    if m.n_samples != b.n_samples or _amax(m._mean - b._mean) > 1e-9 * scale:
         ctx.fail("object_backed_incremental_differs_from_batch", cls="PCAModel", mech="mean_or_count")
     elif m.n_components == b.n_components:
-        if np.abs(m._eigenvalues - b._eigenvalues).max() > 1e-7 * b._eigenvalues[0]:
+        if _amax(m._eigenvalues - b._eigenvalues) > 1e-7 * b._eigenvalues[0]:
             ctx.fail("object_backed_incremental_differs_from_batch", cls="PCAModel", mech="eigenvalues")
-        if np.abs(m._components.T @ m._components - b._components.T @ b._components).max() > 1e-6:
+        if _amax(m._components.T @ m._components - b._components.T @ b._components) > 1e-6:
             ctx.fail("object_backed_incremental_differs_from_batch", cls="PCAModel", mech="subspace")
     ctx.count_case(("pca_object", first, step, stream), nontrivial=True)
 
@@ -285,7 +287,7 @@ def w_gmrf(ctx, rng, i):
     Q1, Q2 = gmrfmon.dense(m.precision), gmrfmon.dense(m2.precision)
     nrm = max(1e-300, np.abs(Q2).max())
     ctx.tap("split_vs_split", "calls"); ctx.tap("split_vs_split", "checked")
-    if np.abs(Q1 - Q2).max() > (1e-7 if dtype == np.float64 else 1e-3) * nrm:
+    if _amax(Q1 - Q2) > (1e-7 if dtype == np.float64 else 1e-3) * nrm:
         ctx.fail("two_splittings_of_the_same_data_disagree", cls="GMRFVectorModel", mech="%s:%s" % ("sparse" if sparse else "dense", mode))
     # a model that was not built incremental refuses increments
     nm = GMRFVectorModel(X[:n0].copy(), g, mode=mode, sparse=sparse, bias=bias, incremental=False)
@@ -330,9 +332,9 @@ def w_gmrf_object(ctx, rng, i):
     b = GMRFModel(shapes, g, sparse=sparse)
     ctx.tap("object_backed_vs_batch", "calls"); ctx.tap("object_backed_vs_batch", "checked")
     Q1, Q2 = gmrfmon.dense(m.precision), gmrfmon.dense(b.precision)
-    if m.n_samples != n or np.abs(m.mean_vector - b.mean_vector).max() > 1e-9 * max(1.0, np.abs(X).max()):
+    if m.n_samples != n or _amax(m.mean_vector - b.mean_vector) > 1e-9 * max(1.0, np.abs(X).max()):
         ctx.fail("object_backed_incremental_differs_from_batch", cls="GMRFModel", mech="mean_or_count:" + ("stream" if stream else "lists"))
-    elif Q1.shape != Q2.shape or np.abs(Q1 - Q2).max() > 1e-7 * max(1e-300, np.abs(Q2).max()):
+    elif Q1.shape != Q2.shape or _amax(Q1 - Q2) > 1e-7 * max(1e-300, np.abs(Q2).max()):
         ctx.fail("object_backed_incremental_differs_from_batch", cls="GMRFModel", mech="precision:" + ("stream" if stream else "lists"))
     ctx.count_case(("gmrf_object", V, len(incs), sparse, stream), nontrivial=True)
 
